@@ -129,6 +129,23 @@ pub open spec fn line_advance(h: LineHdr, r: LineRegs, adv: int) -> LineExec {
     }
 }
 
+/// the operation advance fits gimli's 64-bit registers: neither `op_index + adv` nor the address advance exceeds 2^64 - 1.
+/// C04's exactness ("rows equal the DWARF state machine") is about well-formed programs; a program whose operation
+/// advance overflows 64 bits is not one (gimli computes these two values in `Wrapping<u64>`). The any-input clauses
+/// (monotone, <= address size, no panic) do not depend on this predicate. Nothing is computed in tombstone mode.
+pub open spec fn line_advance_fits(h: LineHdr, r: LineRegs, adv: int) -> bool {
+    r.tombstone || (r.op_index + adv <= 0xffff_ffff_ffff_ffff && h.min_inst_len * ((r.op_index + adv) / h.max_ops) <= 0xffff_ffff_ffff_ffff)
+}
+
+/// the instruction's operands fit the 64-bit registers: only DW_LNS_advance_pc carries an unbounded operation advance
+/// (special opcodes and DW_LNS_const_add_pc advance by at most 254: `lemma_line_small_advance`)
+pub open spec fn line_op_fits(h: LineHdr, r: LineRegs, op: LineOp) -> bool {
+    match op {
+        LineOp::AdvancePc(u) => line_advance_fits(h, r, u),
+        _ => true,
+    }
+}
+
 /// one instruction, up to (and including) "append a row to the matrix using the current values of the registers"
 pub open spec fn line_exec(h: LineHdr, r: LineRegs, op: LineOp) -> LineExec {
     match op {
@@ -248,6 +265,17 @@ pub proof fn lemma_line_special(h: LineHdr, o: int)
     ensures ({ let adj = o - h.opcode_base; 0 <= adj % h.line_range < h.line_range && 0 <= adj / h.line_range <= 254 })
 {
     lemma_line_divmod(o - h.opcode_base, h.line_range);
+}
+
+/// an operation advance of at most 255 (special opcode, const_add_pc) always fits the 64-bit registers
+pub proof fn lemma_line_small_advance(h: LineHdr, r: LineRegs, adv: int)
+    requires valid_line_hdr(h), 0 <= r.op_index < h.max_ops, 0 <= adv <= 255
+    ensures line_advance_fits(h, r, adv)
+{
+    let t = r.op_index + adv;
+    lemma_line_divmod(t, h.max_ops);
+    assert(h.min_inst_len * (t / h.max_ops) <= 255 * 510) by (nonlinear_arith)
+        requires 1 <= h.min_inst_len <= 255, 0 <= t / h.max_ops <= 510;
 }
 
 /// C04 "row addresses never decrease within a sequence and never exceed the address size": one instruction
